@@ -167,7 +167,20 @@ class H(object):
         shutil.copyfile(st['so'], self.path)
         flags = rnd.choice([(), (), ('RTLD_LAZY',), ('RTLD_NOW',), ('RTLD_GLOBAL', 'RTLD_NOW'),
                             ('RTLD_LOCAL', 'RTLD_LAZY')])
-        self.lib = self.ffi.dlopen(self.path, sum(getattr(self.ffi, f) for f in flags))
+        # how the library is opened: by file name, or from a 'void *' handle that the
+        # program got from the C dlopen() itself (ffi.dlclose must close that one too)
+        self.how = rnd.choice(['name', 'name', 'handle'])
+        if self.how == 'name':
+            self.lib = self.ffi.dlopen(self.path, sum(getattr(self.ffi, f) for f in flags))
+        else:
+            if st.get('dl') is None:
+                dl = FFI()
+                dl.cdef('void *dlopen(const char *, int); int dlclose(void *);')
+                st['dl'] = (dl, dl.dlopen(None))
+            h = st['dl'][1].dlopen(self.path.encode(), self.ffi.RTLD_NOW)
+            if not h:
+                raise RuntimeError('harness: C dlopen(%r) failed' % self.path)
+            self.lib = self.ffi.dlopen(h)
         self.val = dict(INIT)
         self.arr = list(range(8))
         self.pt = {'x': 3, 'y': 4}
@@ -180,7 +193,7 @@ class H(object):
     # -- bookkeeping
     def bad(self, mech, msg):
         self.rep.bad(mech, '%s: %s | history seed %d, last steps %r' %
-                     (self.mode, msg, self.seed, self.log[-6:]), self.seed)
+                     (self.mode + ('' if self.how == 'name' else ' (opened from a void* handle)'), msg, self.seed, self.log[-6:]), self.seed)
 
     def mark(self, phase, op, name):
         self.step_no += 1
@@ -398,6 +411,7 @@ class H(object):
         was_mapped = self.mapped()
         self.close('close')
         self.rep.stat('histories_' + self.mode)
+        self.rep.stat('histories_opened_by_' + self.how)
         self.rep.stat('lib_unmapped_by_close' if was_mapped and not self.mapped() else
                       'lib_still_mapped_after_close')
         for _ in range(self.rnd.randint(6, 25)):
